@@ -304,6 +304,7 @@ class Crossing:
                 continue
             self.hit_body = inner
             break
+        self.hit_index_updates = []
         self.conj_src = conj
         self.conj = [inline(c, self.alias) for c in conj]
         # index expressions used on the vertex arrays
@@ -321,6 +322,18 @@ class Crossing:
                 "point_in_polygon: the hit test must address exactly two "
                 f"vertices, found index expressions {[txt(x) for x in idx]}")
         self.A, self.B = idx
+        # index variables must not be advanced inside the hit branch (the
+        # edge enumeration would depend on the data)
+        inames = names_in(self.A) | names_in(self.B)
+        keep = []
+        for s in self.hit_body:
+            tgt = s.targets[0] if isinstance(s, ast.Assign) and len(
+                s.targets) == 1 else getattr(s, "target", None)
+            if isinstance(tgt, ast.Name) and tgt.id in inames:
+                self.hit_index_updates.append(s)
+            else:
+                keep.append(s)
+        self.hit_body = keep
         self.x_conj = [c for c in self.conj
                        if names_in(c) & {self.X, self.XP}]
         self.y_conj = [c for c in self.conj
@@ -530,7 +543,13 @@ def r151(ctx, repo):
 
     # (e) edge enumeration
     bad = None
+    if cr.hit_index_updates:
+        bad = (f"`{short(cr.hit_index_updates[0], 30)}` advances a vertex "
+               "index only when the edge is crossed: which edges are tested "
+               "depends on the data")
     for n in range(1, 7):
+        if bad:
+            break
         pairs = cr.edges(n)
         rng = [p for p in pairs if not (0 <= p[0] < n and 0 <= p[1] < n)]
         if rng:
@@ -1388,8 +1407,8 @@ def r153(ctx, repo):
                + (f"{d} significant digits" if d else "fixed decimals")
                + "; float64 needs 17 to survive the text format – a vertex "
                "moves by up to 1 ulp and points next to an edge change side",
-               node=n, key=f"{POLY}::PolygonFilter.save::float precision "
-               f"coordinate {k}")
+               node=n, key=f"{POLY}::PolygonFilter.save::float format "
+               f"coordinate {k} '{c.spec}'")
 
     # ---- header id
     hn, hparts = header
@@ -1488,7 +1507,7 @@ def run(ctx):
              "self.inverted", minimum=16)
     ctx.rule("R15.3", "save/_load agree on keys, attribute mapping, header "
              "and index parsing, first-'=' split; >= 17 significant digits",
-             minimum=22)
+             minimum=25)
     r151(ctx, repo)
     r152(ctx, repo)
     r153(ctx, repo)
@@ -1603,8 +1622,11 @@ MUTANTS = [
       ("                   point[1]))", "                   point[0]))")],
      "R15.3"),
     ("precision reduced to 8 digits", POLY,
-     ('"point{:08d} = {:.15e} {:.15e}"', '"point{:08d} = {:.7e} {:.15e}"'),
-     "R15.3"),
+     lambda s: re.sub(r'"point\{:08d\} = \{:\.1\de\} (\{:\.1\de\})"',
+                      r'"point{:08d} = {:.7e} \1"', s), "R15.3"),
+    ("fixed-point coordinates", POLY,
+     lambda s: re.sub(r'"point\{:08d\} = \{:\.1\de\} \{:\.1\de\}"',
+                      '"point{:08d} = {:.17f} {:.17f}"', s), "R15.3"),
     ("header prefix not stripped", POLY,
      ('.strip("Polygon []"))', '.strip("[]"))'), "R15.3"),
 ]
@@ -1628,6 +1650,14 @@ TWINS = [
      lambda s: s.replace("            c = not c\n", "            c ^= 1\n")
      .replace("double x,\n", "double px,\n").replace(
          "and (x < (xp[j]", "and (px < (xp[j]")),
+    ("nested tests with local aliases", GEO,
+     lambda s: s.replace(_HIT.join(["        if (\n", "        ):\n"])
+                         + "            c = not c\n",
+                         "        ya = yp[i]\n        yb = yp[j]\n"
+                         "        if (ya <= y) != (yb <= y):\n"
+                         "            if x < xp[i] + (y - ya) * (xp[j] - xp[i])"
+                         " / (yb - ya):\n"
+                         "                c = not c\n")),
     ("filter returns the complement by expression", POLY,
      ("            np.invert(f, f)\n", "            f = ~f\n")),
     ("save with f-strings", POLY,
